@@ -80,6 +80,8 @@ structure DState where
   lcoef   : List (String × Int) := []
   polys   : List (String × List (Rat × List Nat)) := []
   sg      : SGrid := { kpl := 2 }
+  cost    : CostAcc := {}
+  lastDesign : List (Idx × Idx × Nat) := []
   scomps  : List (String × List String × List (String × List (Rat × List Nat))) := []
 
 def stepIdx (st : DState) (cmd : String) (args : List String) : DState × String :=
@@ -285,15 +287,37 @@ def stepSg (st : DState) (cmd : String) (args : List String) : DState × String 
   match cmd, args with
   | "sg.init", [k] =>
       match k.toNat? with
-      | some kk => ({ st with sg := { kpl := kk } }, "ok")
+      | some kk => ({ st with sg := { kpl := kk }, cost := {} }, "ok")
       | none => (st, "bad-op")
   -- sg.batch a:b a:b ...   (alpha : data part of beta) — prints the evaluated keys (sorted) | grid lengths
   | "sg.batch", pairs =>
       match pairs.mapM parsePair? with
       | some batch =>
           let (g, ev) := activateBatch st.sg batch
-          ({ st with sg := g }, ";".intercalate ((sortBy keyLt ev).map showKey) ++ " | " ++
+          let design := (designBatch st.sg batch []).2
+          ({ st with sg := g, lastDesign := List.zipWith (fun (ab : Idx × Idx) (d : Idx × List Coord) => (ab.1, ab.2, d.2.length)) batch design }, ";".intercalate ((sortBy keyLt ev).map showKey) ++ " | " ++
             " ".intercalate (g.gridLen.map toString))
+      | none => (st, "bad-op")
+  -- sg.cost a=c,c,.. a=c,..    the costs the model reported in the call of the LAST `sg.batch`, grouped by fidelity (none: the model
+  --   reports no cost) → booked `misc_costs` of the batch (points per index as designed by the model) | `model_costs` per index
+  | "sg.cost", reps =>
+      let rep? := reps.mapM fun t => match t.splitOn "=" with
+        | [a, cs] => do
+            let ai ← parseIdx? a
+            let cl ← (cs.splitOn ",").mapM parseRat?
+            some (ai, cl)
+        | _ => none
+      match rep? with
+      | some rep =>
+          let acc := bookCall st.cost rep st.lastDesign
+          let booked := acc.misc.drop st.cost.misc.length
+          ({ st with cost := acc }, showRats (booked.map (·.cost)) ++ " | " ++
+            " ".intercalate (st.lastDesign.map fun d => match acc.avg d.1 with | some v => showRat v | none => "none"))
+      | none => (st, "bad-op")
+  -- sg.alloc a a ..  → per fidelity "evals:cost" as `get_allocation` reports them
+  | "sg.alloc", alphas =>
+      match alphas.mapM parseIdx? with
+      | some al => (st, " ".intercalate (al.map fun a => s!"{allocEvals st.cost a}:{showRat (allocCost st.cost a)}"))
       | none => (st, "bad-op")
   | "sg.stored", [] => (st, ";".intercalate ((sortBy keyLt st.sg.stored).map showKey))
   -- sg.rebase e1 e2 .. | n1 n2 ..   → per-index local error positions, "|"-separated
